@@ -15,22 +15,27 @@ type Spec struct {
 	Kind    string `json:"kind"`    // stores | regions | prune | crash | concurrent
 	Backend string `json:"backend"` // mem | leveldb | regionstorage | etcd
 	IDGen   string `json:"idgen"`
-	N       int    `json:"n"`              // live items after the history (crash: regions saved)
-	Hist    string `json:"hist,omitempty"` // plain | overwrite | delete | mixed | unflushed-delete
-	Keys    string `json:"keys,omitempty"` // small | large | heavytail
-	W       int    `json:"w,omitempty"`    // page size forced by the emulated response limit (0 = no limit, <0 = infeasible limit)
-	End     string `json:"end,omitempty"`  // regionstorage: flush | close
+	N       int    `json:"n"`               // live items after the history (crash: regions saved)
+	Hist    string `json:"hist,omitempty"`  // plain | overwrite | delete | mixed | unflushed-delete
+	Keys    string `json:"keys,omitempty"`  // small | large | heavytail
+	W       int    `json:"w,omitempty"`     // page size forced by the emulated response limit (0 = no limit, <0 = infeasible limit)
+	End     string `json:"end,omitempty"`   // regionstorage: flush | close
+	What    string `json:"what,omitempty"`  // interleave / cycles: stores | regions
+	Fault   string `json:"fault,omitempty"` // read fault placed inside the load: transient-range | persistent-range | transient-load
 	Seed    int64  `json:"seed"`
 }
 
 func (s Spec) String() string {
-	return fmt.Sprintf("%s/%s/%s/n=%d/%s/%s/w=%d/%s/seed=%d", s.Kind, s.Backend, s.IDGen, s.N, s.Hist, s.Keys, s.W, s.End, s.Seed)
+	return fmt.Sprintf("%s/%s/%s/n=%d/%s/%s/w=%d/%s/%s/%s/seed=%d", s.Kind, s.Backend, s.IDGen, s.N, s.Hist, s.Keys, s.W, s.End, s.What, s.Fault, s.Seed)
 }
 
-var idGens = []string{"dense1", "dense-offset", "sparse", "near-2^63", "pow10", "top-no-max", "top-with-max", "top-sparse", "mixed"}
+var idGens = []string{"dense1", "dense-offset", "sparse", "near-2^63", "pow10", "dec-prefix", "top-no-max", "top-with-max", "top-sparse", "mixed"}
 
 // idGensNoMax never produce 2^64-1.
-var idGensNoMax = []string{"dense1", "dense-offset", "sparse-no-max", "near-2^63", "pow10", "top-no-max", "mixed-no-max"}
+var idGensNoMax = []string{"dense1", "dense-offset", "sparse-no-max", "near-2^63", "pow10", "dec-prefix", "top-no-max", "mixed-no-max"}
+
+// idGensRoomy leave the id right after the largest one free and stay clear of the top of the range.
+var idGensRoomy = []string{"dense1", "dense-offset", "sparse-no-max", "near-2^63", "pow10", "dec-prefix"}
 
 // genIDs returns n distinct ids >= 1 (id 0 is never allocated by pd and is kept out).
 func genIDs(rng *rand.Rand, gen string, n int) []uint64 {
@@ -98,6 +103,23 @@ func genIDs(rng *rand.Rand, gen string, n int) []uint64 {
 			add(c)
 		}
 		fillSparse(false)
+	case "dec-prefix":
+		// ids whose decimal spellings are prefixes of each other (7, 71, 712, ...): only the zero padding
+		// of the keys keeps them apart and in id order
+		for len(out) < n {
+			v := uint64(0)
+			for d := 0; d < 19 && len(out) < n; d++ {
+				dg := uint64(rng.Intn(10))
+				if d == 0 {
+					dg = uint64(1 + rng.Intn(9))
+				}
+				v = v*10 + dg
+				add(v)
+				if d < 18 && rng.Intn(3) == 0 {
+					add(v * 10) // ...0: the same spelling plus a zero
+				}
+			}
+		}
 	case "top-no-max":
 		for i := 0; i < n; i++ {
 			add(math.MaxUint64 - 1 - uint64(i))
